@@ -79,6 +79,16 @@ def corpus_witness():
     return out
 
 
+def corpus_borderline():
+    """Descriptions the reference calls ill-formed, one defect each, in forms the repository's own tests do not pin.
+    They are subjects only if /repo's analyzer accepts them (then every generated-code check applies to them)."""
+    out = []
+    for p in sorted(glob.glob(os.path.join(VERIF, "corpus", "borderline", "*.pdl"))):
+        name = os.path.basename(p)[:-4]
+        out.append(Entry("b_" + name, open(p).read(), {}, "borderline", p))
+    return out
+
+
 def corpus_repo():
     """Every description the repository itself ships."""
     out = []
@@ -110,7 +120,7 @@ def corpus_repo():
 
 
 def corpus(tier, seed=0):
-    ents = corpus_fixed() + corpus_repo() + corpus_witness()
+    ents = corpus_fixed() + corpus_repo() + corpus_witness() + corpus_borderline()
     if tier == "thorough":
         from . import corpusgen
         ents += corpusgen.generate(seed)
